@@ -1,8 +1,12 @@
 (** C10 — a read-only mount never writes.  Every device write of the model goes through [write_at]; on a read-only
     state it, and every primitive built on it, returns EROFS without a state, and closing does nothing. Read
-    operations return no state at all (their types), so they cannot log a write. *)
-From Coq Require Import ZArith List Bool.
-From PyFatV Require Import Base.Bytes Base.PyEnv Gen.Pure Model.Codec Model.Dir Model.FS Proofs.Session.
+    operations return no state at all (their types), so they cannot log a write.  On top of that, the property
+    itself for the model: every state-changing call (create, makedir, remove, removedir, removetree, setinfo, openbin
+    in every mode, write, truncate, close of a handle, close of the filesystem) on a read-only state fails or returns
+    the very state it was given, hence ANY history of calls after a read-only mount leaves device and write log
+    untouched, and the read-only mount itself logs nothing. *)
+From Coq Require Import ZArith List Bool Relations FMapPositive.
+From PyFatV Require Import Base.Bytes Base.PyEnv Gen.Pure Model.Codec Model.Dir Model.FS Proofs.Session Proofs.ReadOnly.
 Import ListNotations.
 Open Scope Z_scope.
 
@@ -20,3 +24,23 @@ Theorem C10_only_rw_writes : forall s off d s', write_at s off d = Ok s' ->
   s_ro s = false /\ s_log s' = (off, d) :: s_log s /\ s_ro s' = false /\ s_fat s' = s_fat s /\ s_h s' = s_h s /\ s_p s' = s_p s /\ s_hi s' = s_hi s.
 Proof. exact write_at_rw. Qed.
 Print Assumptions C10_only_rw_writes.
+
+Theorem C10_step : forall s s', s_ro s = true -> step s s' -> s' = s.
+Proof. exact ro_step. Qed.
+Print Assumptions C10_step.
+Theorem C10_history : forall s s', s_ro s = true -> clos_refl_trans st step s s' -> s_log s' = s_log s /\ s_dev s' = s_dev s.
+Proof. exact ro_history_no_writes. Qed.
+Print Assumptions C10_history.
+Theorem C10_mount : forall d dsize pc s dirty, mount d dsize true pc = Ok (s, dirty) -> s_ro s = true /\ s_log s = [] /\ s_dev s = d.
+Proof. exact ro_mount. Qed.
+Print Assumptions C10_mount.
+(** [step] is inhabited on read-only states: re-creating the root directory, and closing *)
+Definition ex_ro : st :=
+  mkSt (mkHdr [235;60;144] [] 512 1 1 2 64 4113 248 12 0 0 0 0 0 0 0 0 0 0 [] 0 0 0 0 [] [] false)
+       (set_bytes_per_cluster (Gen.parse_header_geometry pf_init (mkHdr [235;60;144] [] 512 1 1 2 64 4113 248 12 0 0 0 0 0 0 0 0 0 0 [] 0 0 0 0 [] [] false)) 512)
+       true false [4088; 4095; 4095] [] 0 (PositiveMap.empty _) (4113 * 512) [] [].
+Example C10_steps_exist : s_ro ex_ro = true /\ step ex_ro ex_ro /\ op_makedir ex_ro [] true (2020, 1, 1, 0, 0, 0) = Ok ex_ro /\
+  op_listdir ex_ro [] = Ok [].
+Proof.
+  split; [reflexivity|]. split; [apply st_close; reflexivity|]. split; [reflexivity|]. vm_compute. reflexivity.
+Qed.
